@@ -107,6 +107,19 @@ CHECKS = {
         "Selector semantics themselves are C07/C08; Avro and CSV runs use a single descriptor.",
         "DESIGN.md 4/C10",
     ),
+    "C11": (
+        "exploration",
+        "configuration-matrix enumeration (codec x container x access path) over generated sequences + garbage-input "
+        "fuzzing (Hypothesis), oracle = independent decompressors + reference decode + cross-access agreement",
+        "Every cell of codec {none,gz,bz2,lz4,zst,zstd} x container {stream,avro} is written by path and read back by "
+        "path, by a name that hides the codec, from a buffered file, BytesIO, an unbuffered raw object without peek() "
+        "and (sampled) the standard input of a real rdump subprocess; the file must start with the codec magic, a "
+        "standard decompressor plus the reference codec / fastavro must recover the written records, and every access "
+        "way must return equal records through the expected adapter. Generated garbage must be refused with an error "
+        "and yield no record.",
+        "Standard decompressor = the Python bindings present; avro cells restricted to avro-mappable types.",
+        "DESIGN.md 4/C11",
+    ),
 }
 
 NOT_APPLICABLE = {}
